@@ -3,7 +3,7 @@
    [P]: one poll of the main loop; [T w]: worker w takes the next job of run_jobs, [JP]: one poll, [V]: the queued jobs become visible); every
    theorem quantifies over ALL schedules, batch contents, process counts (and sequences of batches). *)
 From Coq Require Import List Bool Arith Permutation.
-From PAFC14 Require Import Model Lib Proofs1 Proofs2 Proofs3 Proofs4 Witness.
+From PAFC14 Require Import Model Lib Proofs1 Proofs2 Proofs3 Proofs4 Proofs5 Witness.
 Import ListNotations.
 
 (* ---- SneakyPool.map as it is (results yielded in the order of discovery) ---- *)
@@ -36,6 +36,22 @@ Theorem C14_map_batches_no_residue : forall (R E : Type) n (bs : list (list (out
   Forall (fun o => bo_done o = true) (batches false bs p0) ->
   Forall2 (fun b o => batch_good (fst b) o) bs (batches false bs p0).
 Proof. exact @map_batches. Qed.
+
+(* FULL (termination): once every job of the batch has been evaluated, (|jobs| + 2) * n further polls end the call,
+   wherever the sweep stands *)
+Theorem C14_map_terminates : forall (R E : Type) n (jobs : list (nat * outcome R E)) (p0 : pool R E) sched,
+  0 < n -> wf n p0 -> clean p0 ->
+  concat (pend (fst (run sched (start jobs p0)))) = [] ->
+  done (snd (run (sched ++ repeat P (drain_fuel n (length jobs))) (start jobs p0))) = true.
+Proof. exact @map_terminates. Qed.
+
+(* FULL (headline): EVERY schedule in which every job gets evaluated gives a finished call that yields a permutation
+   of the serial results, evaluated each input once, left no residue, and raised iff a job of the batch failed *)
+Theorem C14_map_complete_schedule : forall (R E : Type) n (outs : list (outcome R E)) (p0 : pool R E) sched,
+  0 < n -> wf n p0 -> clean p0 ->
+  concat (pend (fst (run sched (start (enum outs) p0)))) = [] ->
+  bo_done (snd (batch false outs sched p0)) = true /\ batch_good outs (snd (batch false outs sched p0)).
+Proof. exact @batch_complete_schedule. Qed.
 
 (* REFUTED (the finding): positional order -- two processes, the second finishes first *)
 Theorem C14_map_order_refuted :
@@ -145,6 +161,7 @@ Proof. exact init_pairs_refuted. Qed.
 
 Print Assumptions C14_map_once_no_residue.
 Print Assumptions C14_map_batches_no_residue.
+Print Assumptions C14_map_complete_schedule.
 Print Assumptions C14_map_order_refuted.
 Print Assumptions C14_mapfix_order.
 Print Assumptions C14_jobs_keyed_serial.
